@@ -21,6 +21,8 @@ def configs(tier):
     cs = [Config(levels=1, ndisks=2, contents=["c0/content", "c1/content"]),
           Config(levels=2, ndisks=3, hashsize=8, hashkind="spooky2", contents=["c0/content", "d1/.content", "c1/content"],
                  splits={0: 2, 1: 2}, parity_limit=6144)]
+    # disks whose whole recorded state is one symlink / one empty directory
+    cs.append(Config(levels=1, ndisks=4, tag="sparse", contents=["c0/content", "c1/content"]))
     if tier == "thorough":
         cs += [Config(levels=2, ndisks=3, tag="hole", contents=["c0/content", "c1/content"]),
                Config(levels=3, z=True, ndisks=2, hashsize=2, contents=["c0/content", "c1/content"])]
@@ -32,6 +34,9 @@ def init_ops(cfg):
     # odd names, links, dirs before the first sync
     extra = [("write", "d1", "nl\nx", 10, 0), ("write", "d2", "co:lon", 1024, 0), ("write", "d1", "\udcff\udcfe", 0, 0),
              ("symlink", "d1", "l n", "a"), ("hardlink", "d2", "hl", "b"), ("mkdir", "d2", "e d/x"), ("write", "d1", "z0", 5, 0, 0)]
+    if cfg.tag == "sparse":
+        ops = [o for o in ops if not (o[0] != "cmd" and o[1] in ("d3", "d4"))]
+        extra += [("symlink", "d3", "only-a-link", "../d1/a"), ("mkdir", "d4", "only/an/empty/dir")]
     i = ops.index(("cmd", "sync"))
     return ops[:i] + extra + ops[i:]
 
@@ -95,6 +100,18 @@ def step(L, op, res, hist):
         for p, b in saved.items():
             with open(p, "wb") as f:
                 f.write(b)
+    # after a successful complete sync what was saved is what the tree holds (nothing silently dropped on save)
+    if res is not None and res.rc == 0 and tuple(op) == ("cmd", "sync"):
+        from checks import C11
+        gf, gl, gd = C11.ground_truth(L)
+        rf, rl, rd = C11.recorded(c)
+        gf, gl = C11.norm(gf, gl)
+        rf, rl = C11.norm(rf, rl)
+        own = {(t.split("/", 1)[0], t.split("/", 1)[1]) for t in L.cfg.contents if t.split("/", 1)[0] in L.cfg.disknames}
+        gf = {k: x for k, x in gf.items() if k not in own and (k[0], k[1].replace(".lock", "")) not in own}
+        if set(rf) != set(gf) or rl != gl or rd != gd:
+            v.append(dict(kind="saved-state-misses-tree-elements", where=where, files=sorted(map(repr, set(gf) ^ set(rf)))[:4],
+                          links=sorted(map(repr, set(gl.items()) ^ set(rl.items())))[:4], dirs=sorted(map(repr, gd ^ rd))[:4]))
     kinds = set()
     for d in c.disks.values():
         for f in d.files:
